@@ -125,6 +125,16 @@ CLAIMS.update({
              "worker's processed count, and if an un-cancelled run had finished the snapshot is exactly that run's result (count, pattern, stream); the remaining step (the snapshot "
              "already equals the worker's result when no run finished since the last look) is evaluated as an oracle clause on every tick of every history.",
         note=NU_NOTE),
+    "C09": dict(
+        technique="Lean 4 happens-before certificates over the orderings extracted from the source + site-sequence validation on real schedules + Miri litmus programs as failing-schedule search",
+        text="Theorems: every atomic operation of the item vector is classified (C09_sites_covered fails when one is added or removed); the declared orderings are the ones the "
+             "chains need (weakening any of them breaks C09_orderings, strengthening keeps it); and for every execution (events, program order, reads-from, library edges) that "
+             "follows the stated skeleton, the initialising write happens-before the read: entry data for get and the snapshot iterators, the bucket header's non-atomic "
+             "initialisation for get / iterators (repair of F10) / writers, and get_unchecked through its caller contract and the publisher's acquire of the pointer. The worker's "
+             "result list, the per-thread matchers and Drop are ordered by library edges (mutex, spawn/join, Arc). The skeleton is validated by replaying real schedules site by "
+             "site; three litmus programs run under Miri's race detector (thorough tier, and whenever a certificate breaks: Miri's report is then the replay).",
+        note="Trusted: Lean kernel, axioms propext/Classical.choice/Quot.sound, translator (atomic-site extraction), the release/acquire fragment of the memory model as formalised "
+             "in Model/MemModel.lean, harness scheduler, Miri as the search engine. rayon, parking_lot and Arc internals are library edges."),
     "C11": dict(
         technique="Lean 4 theorems about the translated Drop loop and the reference-count model + drop-counter / allocation-balance correspondence",
         text="Theorems: the Drop loop (its break/continue shape is translated from the source on every run) visits every allocated bucket wherever it sits (repair of F12, with the "
